@@ -1,5 +1,7 @@
 package corpus
 
+import "fmt"
+
 const wsPattern = `' ' | '\t' | '\n' | '\r'`
 
 var wsSeps = []string{" ", "\n", "\t", "  ", " \n ", "\r\n"}
@@ -287,6 +289,13 @@ func Fixed() []*Grammar {
 			LexDef{Kind: LexToken, Name: "mid", Pattern: `'m' _digit`, Samples: []string{"m1"}},
 			LexDef{Kind: LexToken, Name: "beta", Pattern: `'b' _digit`, Samples: []string{"b1"}},
 			LexDef{Kind: LexToken, Name: "omega", Pattern: `'o' _digit`, Samples: []string{"o1"}},
+			// ids that differ only in leading zeros or case, all unused by the syntax part
+			LexDef{Kind: LexToken, Name: "r1", Pattern: `'r' '1'`, Samples: []string{"r1"}},
+			LexDef{Kind: LexToken, Name: "r01", Pattern: `'r' '0' '1'`, Samples: []string{"r01"}},
+			LexDef{Kind: LexToken, Name: "r007", Pattern: `'r' '0' '0' '7'`, Samples: []string{"r007"}},
+			LexDef{Kind: LexToken, Name: "r7", Pattern: `'r' '7'`, Samples: []string{"r7"}},
+			LexDef{Kind: LexToken, Name: "rA", Pattern: `'r' 'A'`, Samples: []string{"rA"}},
+			LexDef{Kind: LexToken, Name: "ra", Pattern: `'r' 'a'`, Samples: []string{"ra"}},
 			ws()),
 		Prods: []*Prod{
 			P("S", Al(Call(A(0)), "used"), Al(Call(A(0), A(2)), "S", `";"`, "used")),
@@ -373,6 +382,46 @@ func Fixed() []*Grammar {
 			P("Args", Al(none), Al(none, "ArgList")),
 			P("ArgList", Al(Call(A(0)), "Expr"), Al(Call(A(0), A(2)), "ArgList", `","`, "Expr")),
 		}})
+
+	// bigexpr: ten precedence levels and a statement layer: about a thousand LR(1)
+	// states, tables of tens of kilobytes (thresholds that only large grammars cross)
+	{
+		ops := []string{"||", "&&", "|", "&", "==", "<", "+", "*", "**", "<<", "=>", "::", "%"}
+		prods := []*Prod{
+			P("Program", Al(Call(A(0)), "StmtList")),
+			P("StmtList", Al(Call(A(0)), "Stmt"), Al(Call(A(0), A(1)), "StmtList", "Stmt")),
+			P("Stmt",
+				Al(Call(T(0), A(2)), "id", `"="`, "E0", `";"`),
+				Al(Call(A(1)), `"print"`, "E0", `";"`),
+				Al(Call(A(2), A(4)), `"if"`, `"("`, "E0", `")"`, "Block"),
+				Al(Call(A(2), A(4), A(6)), `"if"`, `"("`, "E0", `")"`, "Block", `"else"`, "Block"),
+				Al(Call(A(2), A(4)), `"while"`, `"("`, "E0", `")"`, "Block"),
+				Al(Call(T(1), A(3), A(5), A(6)), `"for"`, "id", `"in"`, "E0", `".."`, "E0", "Block"),
+				Al(Call(A(1)), `"return"`, "E0", `";"`),
+				Al(none, "Block")),
+			P("Block", Al(Call(A(1)), `"{"`, "StmtList", `"}"`), Al(Call(), `"{"`, `"}"`)),
+		}
+		for i, op := range ops {
+			cur, next := fmt.Sprintf("E%d", i), fmt.Sprintf("E%d", i+1)
+			prods = append(prods, P(cur, Al(Call(A(0), A(2)), cur, `"`+op+`"`, next), Al(none, next)))
+		}
+		last := fmt.Sprintf("E%d", len(ops))
+		prods = append(prods,
+			P(last, Al(Call(A(1)), `"-"`, last), Al(Call(A(1)), `"!"`, last), Al(none, "Primary")),
+			P("Primary", Al(Call(T(0)), "int"), Al(Call(T(0)), "id"), Al(Pass(1), `"("`, "E0", `")"`),
+				Al(Call(T(0), A(2)), "id", `"("`, "Args", `")"`), Al(Call(T(0)), "id", `"("`, `")"`),
+				Al(Call(A(0), A(2)), "Primary", `"["`, "E0", `"]"`), Al(Call(A(1)), `"["`, "Args", `"]"`),
+				Al(Call(A(1), A(3)), `"{"`, "E0", `":"`, "E0", `"}"`),
+				Al(Call(A(1), A(3), A(5)), `"if"`, "E0", `"then"`, "E0", `"else"`, "E0", `"end"`),
+				Al(Call(T(1), A(3), A(5)), `"let"`, "id", `"="`, "E0", `"in"`, "E0", `"end"`)),
+			P("Args", Al(Call(A(0)), "E0"), Al(Call(A(0), A(2)), "Args", `","`, "E0")))
+		add(&Grammar{ID: "bigexpr", GoccOnly: true, Big: true, Seps: wsSeps,
+			Lex: append(letters(),
+				LexDef{Kind: LexToken, Name: "int", Pattern: `'0' | '1'-'9' {_digit}`, Samples: []string{"0", "7", "42"}},
+				LexDef{Kind: LexToken, Name: "id", Pattern: `(_letter | '_') {_letter | _digit | '_'}`, Samples: []string{"a", "b_1", "xyz"}},
+				ws()),
+			Prods: prods})
+	}
 
 	return gs
 }
